@@ -112,8 +112,12 @@ def _solve_steps(steps, sysd, scale, tol, prec, cap, storage, jitter, R, tagx=No
     A = _scaled(sysd["A"], scale)
     if storage == "sparse":
         A = dict(A, storage="sparse")
+        if R.random() < 0.3:
+            A["explicit_zeros"] = True
     b = _scaled(sysd["b"], scale)
     cfg = {"tol": tol, "max_iter": cap, "preconditioner": None if prec == "none" else prec}
+    if R.random() < 0.12:
+        cfg["verbose"] = True
     steps.append({"k": "new", "obj": f"s{j}", "cls": "solver.QGMRESSolver", "cfg": cfg})
     call = {"k": "call", "obj": f"s{j}", "meth": "solve", "args": [A, b],
             "tags": dict({"scale": scale, "prec": prec, "cap": cap, "storage": storage,
